@@ -606,7 +606,8 @@ func BuildMsg(s MsgSpec, o BuildOpts) *Built {
 		m.SetMessageIDWithValue(s.Token + "@sim.example")
 	}
 	for _, h := range s.Headers {
-		m.SetGenHeader(mail.Header(h[0]), h[1])
+		// a value containing the unit separator U+001F is a list of values for one header field
+		m.SetGenHeader(mail.Header(h[0]), strings.Split(h[1], "\x1f")...)
 	}
 	for _, h := range s.Preform {
 		m.SetGenHeaderPreformatted(mail.Header(h[0]), h[1])
